@@ -59,6 +59,28 @@ def _paths(c):
         return Network.FromIGraph(g, silence_level=3)
 
     paths["igraph"] = from_igraph
+
+    def shuffled():
+        """The edges in another order; every second undirected edge with its endpoints exchanged."""
+        es = edges()[::-1]
+        es = es[1::2] + es[0::2]
+        if not directed:
+            es = [(e[1], e[0]) if k % 2 else tuple(e) for k, e in enumerate(es)]
+        return [tuple(e) for e in es]
+
+    def from_igraph_shuffled():
+        g = igraph.Graph(n=n, edges=shuffled(), directed=directed)
+        g.vs["node_weight_nsi"] = list(w)
+        if c["hasla"]:
+            g.es["w"] = [la[e.tuple] for e in g.es]
+        return Network.FromIGraph(g, silence_level=3)
+
+    paths["igraph_shuffled"] = from_igraph_shuffled
+    paths["igraph_shuffled.copy"] = lambda: from_igraph_shuffled().copy()
+    paths["edge_list_shuffled"] = lambda: finish(Network(edge_list=shuffled(), n_nodes=n, directed=directed,
+                                                         node_weights=w.copy(), silence_level=3))
+    paths["edge_list_n.copy"] = lambda: paths["edge_list_n"]().copy()
+    paths["copy.copy"] = lambda: base().copy().copy()
     paths["copy"] = lambda: base().copy()
     if not directed:
         paths["undirected_copy"] = lambda: base().undirected_copy()
@@ -75,6 +97,8 @@ def _paths(c):
 
     for fmt in FILE_FORMATS:
         paths[fmt] = lambda fmt=fmt: roundtrip(fmt)
+    for fmt in ("graphml", "pickle"):
+        paths[fmt + ".copy"] = lambda fmt=fmt: roundtrip(fmt).copy()
     return paths
 
 
